@@ -566,3 +566,47 @@ Proof.
   apply Forall_app; split; [apply enc_loop_printable|].
   constructor; [vm_compute; split; discriminate|constructor].
 Qed.
+
+(* ---------- the Decoder's string token (parseStringValue) ---------- *)
+Definition no_quote_head (s : list byte) : Prop :=
+  match s with [] => True | b :: _ => is_quote b = false end.
+
+Lemma parse_string_value_stop f s : no_quote_head s -> parse_string_value f s = SOk ([], s).
+Proof. destruct s as [|b r]; destruct f; cbn [parse_string_value no_quote_head]; try reflexivity; intros ->; reflexivity. Qed.
+
+Lemma parse_string_value_quote f t :
+  parse_string_value (S f) (x22 :: t) =
+  match parse_string (x22 :: t) with
+  | SErr e => SErr e
+  | SOk (o, rest) => sprepend o (parse_string_value f (consume_ws false rest))
+  end.
+Proof. reflexivity. Qed.
+
+(* a literal written by appendString, followed by anything that (after
+   whitespace and comments) does not start another literal, is read back as one
+   string token with exactly the original bytes *)
+Theorem text_string_value_roundtrip ascii bs rest f :
+  no_quote_head (consume_ws false rest) ->
+  parse_string_value (S f) (append_string ascii bs ++ rest) = SOk (bs, consume_ws false rest).
+Proof.
+  intros H.
+  assert (Hq : exists t, append_string ascii bs ++ rest = x22 :: t) by (unfold append_string; cbn [app]; eauto).
+  destruct Hq as (t & Et). rewrite Et, parse_string_value_quote, <- Et.
+  rewrite text_string_roundtrip, parse_string_value_stop by exact H.
+  cbn [sprepend]. now rewrite app_nil_r.
+Qed.
+
+(* adjacent literals are concatenated *)
+Theorem text_string_value_concat a1 bs1 a2 bs2 ws rest f :
+  consume_ws false (ws ++ append_string a2 bs2 ++ rest) = append_string a2 bs2 ++ rest ->
+  no_quote_head (consume_ws false rest) ->
+  parse_string_value (S (S f)) (append_string a1 bs1 ++ ws ++ append_string a2 bs2 ++ rest)
+  = SOk (bs1 ++ bs2, consume_ws false rest).
+Proof.
+  intros Hws H.
+  assert (Hq : exists t, append_string a1 bs1 ++ ws ++ append_string a2 bs2 ++ rest = x22 :: t)
+    by (unfold append_string at 1; cbn [app]; eauto).
+  destruct Hq as (t & Et). rewrite Et, parse_string_value_quote, <- Et.
+  rewrite text_string_roundtrip, Hws.
+  rewrite (text_string_value_roundtrip a2 bs2 rest f H). reflexivity.
+Qed.
